@@ -327,6 +327,7 @@ pub fn enc_result(r: &Result<Value, reval::Error>) -> String {
 pub fn via_ctor(e: &Expr) -> Expr {
     let c = |x: &Expr| via_ctor(x);
     match e {
+        Expr::Value(Value::None) => Expr::none_value(),
         Expr::Value(v) => Expr::value(v.clone()),
         Expr::Reference(n) => Expr::reff(n),
         Expr::Symbol(n) => Expr::symbol(n),
